@@ -40,6 +40,7 @@ func cmdVerify(args []string) {
 	dump := fs.String("dump", "", "directory for failed queries / generated code")
 	verbose := fs.Bool("v", false, "verbose")
 	prof := fs.String("cpuprofile", "", "write cpu profile")
+	nobatch := fs.Bool("nobatch", false, "disable batched discharge")
 	fs.Parse(args)
 	if *prof != "" {
 		f, _ := os.Create(*prof)
@@ -75,7 +76,7 @@ func cmdVerify(args []string) {
 		fmt.Println("TOOL-ERROR:", er)
 	}
 	t2 := time.Now()
-	e.Discharge(e.Obligs, sym.DischargeOpts{TimeoutS: *timeout, Jobs: *jobs, DumpDir: *dump, Models: true})
+	e.Discharge(e.Obligs, sym.DischargeOpts{TimeoutS: *timeout, Jobs: *jobs, DumpDir: *dump, Models: true, NoBatch: *nobatch})
 	fmt.Printf("discharge: %.1fs (script building %.1fs)\n", time.Since(t2).Seconds(), float64(e.Stats["build-scripts-ms"])/1000)
 	cnt := map[string]int{}
 	for _, ob := range e.Obligs {
